@@ -351,7 +351,7 @@ func (a *Act) unop(st *State, in *ssa.UnOp) {
 		}
 		t := a.load(st, lv)
 		a.setVal(in, t)
-		a.assumeWF(st, in.Type(), a.vals[in], 1)
+		a.assumeWFInv(st, in.Type(), a.vals[in], 1, !rootedAtAlloc(in.X))
 		if g, ok := in.X.(*ssa.Global); ok {
 			if msg, ok := tr.eng.constErrGlobs[g]; ok {
 				// var ErrX = errors.New("literal"), never assigned: a non-nil plain error with that text
@@ -366,8 +366,9 @@ func (a *Act) unop(st *State, in *ssa.UnOp) {
 		}
 		a.checkGuardedAccess(st, lv, false, in.Pos(), in)
 		a.checkSharedFlag(st, lv, false, "", in.Pos())
-		if lv.kind == lvField {
-			// the enclosing heap-resident struct satisfies its type invariant
+		if lv.kind == lvField && !rootedAtAlloc(in.X) {
+			// the enclosing heap-resident struct satisfies its type invariant (not for a variable
+			// of this function: its invariant is what the construction site has to prove)
 			b := lv.base
 			for b.kind == lvField {
 				b = b.base
@@ -876,4 +877,23 @@ func (tr *Tr) cardLemma(st *State, mt *types.Map, m, l Term) {
 		tr.assume(Implies(And(Eq(l, p.l), subBA), sameDom), "finite maps: a subset of equal size is the whole set")
 	}
 	tr.mapLens = append(tr.mapLens, mapLenRec{m: m, l: l, dom: hd})
+}
+
+// rootedAtAlloc: the address is (a field or element of) a variable allocated by this function.
+func rootedAtAlloc(v ssa.Value) bool {
+	for {
+		switch x := v.(type) {
+		case *ssa.Alloc:
+			return true
+		case *ssa.FieldAddr:
+			v = x.X
+		case *ssa.IndexAddr:
+			if _, ok := x.X.Type().Underlying().(*types.Pointer); !ok {
+				return false // element of a slice: not this function's variable
+			}
+			v = x.X
+		default:
+			return false
+		}
+	}
 }
